@@ -25,6 +25,7 @@ from .common import Check, Graph
 KINDS = ["none", "login", "normal", "seed", "eq", "upload", "temp", "asset", "wrapper", "proxyonly"]
 BEHAVIOURS = ["ignore", "take", "takeResume", "resume", "inject", "rewrite", "nostream", "raise", "takeRaise", "handled",
               "clearcap", "setcap"]
+MIRROR_URL = "https://mirror.test/mirrored/path?m=1"
 REGION_ADDRS = {1: ("127.0.0.1", 13001), 2: ("127.0.0.1", 13002)}
 ADDON_URL = "https://rewritten-by-addon.test/elsewhere?x=1"
 ASSET_URL = "http://asset-cdn.test/viewerasset"
@@ -102,6 +103,23 @@ class FlowContext:
 
 
 class _Master:
+    """Stands in for mitmproxy's master + client playback (needs a full mitmproxy master): like the real
+    thing it marks a flow handed to replay.client as a replay, forgets its response and feeds it through
+    the proxy-side request hook like any other request."""
+
+    def __init__(self):
+        self.commands = self
+        self.replayed = []
+
+    def call(self, command, flows):
+        if command != "replay.client":
+            raise common.MachineryError("unexpected mitmproxy command " + str(command))
+        for flow in flows:
+            flow.is_replay = "request"
+            flow.response = None
+            self.replayed.append(flow)
+            Runtime.current.proxy.request(flow)
+
     def shutdown(self):
         pass
 
@@ -118,8 +136,8 @@ class Runtime:
         asyncio.set_event_loop(self.loop)
         self.ctx = FlowContext()
         self.proxy = SLMITMAddon(self.ctx)
-        if not hasattr(mitmproxy.ctx, "master"):
-            mitmproxy.ctx.master = _Master()
+        self.master = _Master()
+        mitmproxy.ctx.master = self.master
         self.pump_task = None
         # reflection bridge (observation only): remember the main-process flow objects that
         # pump_proxy_event builds, so their public attributes can be read at hand-back time
@@ -194,6 +212,7 @@ class Runtime:
         self.built.clear()
         self.last_built = None
         self.proxy.flows.clear()
+        self.master.replayed.clear()
 
 
 _RT = None
@@ -266,6 +285,12 @@ class Scripted:
             raise ScriptedRaise("hook after take")
         elif b == "handled":
             return True
+        elif b == "mirror":
+            mirrored = flow.copy()
+            mirrored.request.url = MIRROR_URL
+            mirrored.metadata.pop("cap_data_ser", None)
+            mirrored.metadata.pop("cap_data", None)
+            self.world.sm.flow_context.to_proxy_queue.put(("replay", None, mirrored.get_state()))
         elif b == "clearcap":
             flow.cap_data = None
         elif b == "setcap":
@@ -423,6 +448,8 @@ class World:
             return "orig"
         if url == ADDON_URL:
             return "addon"
+        if url == MIRROR_URL:
+            return "mirror"
         if fl.redirect_urls and url == fl.redirect_urls[0]:
             return "handler"            # the original url on the wrapped cap's host
         if fl.redirect_urls and url == fl.redirect_urls[1]:
@@ -624,6 +651,9 @@ class FlowDriver:
             if o["flow"].id == fid:
                 o["back"] += 1
                 return "drop"       # other flows are not followed beyond their hand-back
+        if kind == "replay":        # a copy an addon wants replayed: carries no flow id
+            self.put_log.append([kind, fid is None, None, None])
+            return None
         hf = self.w.rt.built.get(fid)
         if hf is None or self.flow is None or fid != self.flow.id:
             self.put_log.append([kind, False, None, None])
@@ -695,6 +725,11 @@ class FlowDriver:
             state["version"] = -1        # set_state will raise on this
             q.items[0] = pickle.dumps((kind, fid, state))
         await self.w.rt.apply_one()
+        # flows the proxy side created for replay are other flows from now on
+        known = {id(o["flow"]) for o in self.others}
+        for f in self.w.rt.master.replayed:
+            if id(f) not in known:
+                self.others.append({"flow": f, "r": False, "back": 0})
 
     # ---- observation ------------------------------------------------------------------
     def _project_state(self, state):
@@ -720,7 +755,8 @@ class FlowDriver:
         toq = []
         for b in w.ctx.to_proxy_queue.items:
             kind, fid, state = pickle.loads(b)
-            toq.append([kind, self.flow is not None and fid == self.flow.id, self._project_state(state)])
+            ok = fid is None if kind == "replay" else (self.flow is not None and fid == self.flow.id)
+            toq.append([kind, ok, self._project_state(state)])
         if self.flow is not None:
             px = [bool(self.flow.intercepted), w.project_proxy(self.flow, self)]
         else:       # our flow does not exist yet
@@ -729,7 +765,12 @@ class FlowDriver:
         if self.main is not None:
             mf = [bool(self.main.taken), bool(self.main.resumed), w.project_main(self.main, self)]
         oth = [[("o%d" % (i + 1)) in order, o["back"]] for i, o in enumerate(self.others)]
-        return {"fromQ": fromq, "toQ": toq, "px": px, "mf": mf, "oth": oth, "order": order}
+        # the proxy side's registry of intercepted flows, keyed by flow id: every flow that was ever
+        # intercepted is found there under its own id (identities are distinct)
+        flows = w.rt.proxy.flows
+        reg = [self.flow is not None and flows.get(self.flow.id) is self.flow] + \
+              [flows.get(o["flow"].id) is o["flow"] for o in self.others]
+        return {"fromQ": fromq, "toQ": toq, "px": px, "mf": mf, "oth": oth, "order": order, "reg": reg}
 
 
 def expected_obs(dst):
@@ -745,7 +786,8 @@ def expected_obs(dst):
             "px": [dst["px"][1], dst["px"][2]],
             "mf": mf,
             "oth": [[o[2], o[3]] for o in oth],     # still queued?, callbacks put
-            "order": order}
+            "order": order,
+            "reg": [dst["px"][0] != "start"] + [True] * len(oth)}
 
 
 def _lookahead(path):
@@ -820,7 +862,7 @@ async def _run_path(path, n_addons, compare_from=None, brand_new=False):
 
 def _diff(exp, got):
     bad = []
-    for k in ("fromQ", "toQ", "px", "mf", "oth", "order"):
+    for k in ("fromQ", "toQ", "px", "mf", "oth", "order", "reg"):
         if exp[k] != got[k]:
             bad.append((k, exp[k], got[k]))
     return bad
@@ -993,6 +1035,8 @@ def run(chk: Check):
         "other flows waiting in the proxy->main queue around ours are plain request events (unknown URL, or a Seed request "
         "whose body is not LLSD and whose handling raises out of the pump); the main process pumps until the queue is empty, "
         "exceptions caught, as MITMProxyEventManager.run does; how many events one pump takes is left open",
+        "mitmproxy's client replay machinery is stood in for (marks the flow as a replay, drops its response, feeds it through "
+        "the real proxy-side request hook); a replayed copy is followed as another flow up to its hand-back",
         "addons that change the attribution either clear it (flow.cap_data = None) or set one fixed other cap of the universe",
         "SessionCloses = SessionManager.close_session + the session's and regions' objects unreferenced and collected "
         "(driver drops its references and runs gc.collect(); still-referenced objects are a MachineryError); B1 explores one "
@@ -1011,6 +1055,8 @@ def run(chk: Check):
                       naddons=1, faults=["none"], maxcalls=1, bad=[False], close=[1, 2]), "close")
         _b1(chk, dict(kinds=["eq"], pairs=[21], behaviours=["ignore", "take", "raise"], naddons=1, faults=["none", "cap"], maxcalls=0,
                       bad=[False], others=2), "queue")
+        _b1(chk, dict(kinds=["normal"], pairs=[21], behaviours=["ignore", "mirror", "take"], naddons=2, faults=["none"], maxcalls=0,
+                      bad=[False]), "mirror")
         _b2(chk, 96, 4, "walks")
     else:
         owned = [k for k in KINDS if k not in ("none", "login", "asset")]
@@ -1025,6 +1071,8 @@ def run(chk: Check):
                       naddons=1, faults=F3, maxcalls=1, bad=[False]), "recap")
         _b1(chk, dict(kinds=["normal", "eq", "seed", "wrapper"], pairs=[21], behaviours=["ignore", "take", "raise", "inject", "takeResume"],
                       naddons=1, faults=["none", "cap"], maxcalls=0, bad=[False], others=2), "queue")
+        _b1(chk, dict(kinds=["normal", "wrapper"], pairs=[12], behaviours=["ignore", "mirror", "take", "inject"],
+                      naddons=2, faults=["none"], maxcalls=0, bad=[False], others=1), "mirror")
         _b2(chk, 1600, 5, "walks")
     if chk.cov.get("b1_raise_points_expected", 0) and not chk.cov.get("b1_raise_points_reached", 0) and not chk.violations:
         raise common.MachineryError("no scripted fault ever made pump_proxy_event raise: fault injection is vacuous")
